@@ -78,6 +78,10 @@ EXPR_PAIRS = [
     # the same text and pattern at a rising threshold: how similar two strings are does not depend on who asked before
     ('fuzzy("SQ *STARBUCKS #1234", "STARBUCKS", 0.8)', 'fuzzy("sq *starbucks #1234", "starbucks", 0.95)'), ('fuzzy("ETFLIX")', 'fuzzy("ETFLIX", 0.97)'),
     ('fuzzy(field.memo, "EF 1", 0.7)', 'fuzzy(field.memo, "EF 1", 1.0)'), ('fuzzy("TARBUCK", 0.5)', 'fuzzy("TARBUCK", 0.9)'),
+    # the same comparison text meets a date on one row and text on another (a date cell the loader could not parse): the literal stays what was written
+    ('len([r for r in orders if r.date >= "2024-01-01"])', 'len([r for r in orders if r.date >= "2024-01-01"])'),
+    ('[r.item for r in orders if "2024-06-01" <= r.date]', '[r.item for r in orders if "2024-06-01" <= r.date]'),
+    ('any(r.date == "2024-03-05" for r in orders)', 'any(r.date == "2024-03-05" for r in receipts)'),
     ('not regex("SAMS(CLUB")', 'regex("SAMS(CLUB") or contains("e")'), ('extract("A(B") == ""', 'not regex("[a-")'), ('regex("SAMS(CLUB")', 'not regex("SAMS(CLUB")'),
 ]
 VARS_RULES = '''is_wire = field.type == "WIRE"
@@ -191,9 +195,13 @@ class History(RuleBasedStateMachine):
                             f'{json.dumps(exp)[:500]}\nhistory: {json.dumps(self.steps)[:1500]}', self.case(), 'history-dependence')
 
     # ---- setup
-    @initialize(w=world(), rows=lang.rows_case)
-    def setup(self, w, rows):
+    @initialize(w=world(), rows=lang.rows_case, text_date=st.sampled_from([None, None, 'first', 'last']))
+    def setup(self, w, rows, text_date):
         files, txns = w
+        if text_date:
+            # a supplemental row whose date cell could not be parsed keeps it as text, next to a properly dated row
+            extra = [{'item': 'Late Item', 'amount': 5.0, 'date': 'pending', 'qty': 1}, {'item': 'Dated Item', 'amount': 6.0, 'date': '2024-07-01', 'qty': 1}]
+            rows = dict(rows, orders=(extra + rows['orders']) if text_date == 'first' else (rows['orders'] + extra[::-1]))
         # one file whose top-level variables depend on custom fields, and transactions with / without those fields:
         # what a variable evaluates to for one transaction must not affect the next
         files = files + [{'kind': 'rules', 'name': 'vars.rules', 'text': VARS_RULES}]
